@@ -37,6 +37,13 @@ type c14Prog struct {
 	Clients    int
 	Goroutines int
 	Calls      int
+	// transport faults: the listener's / first client's socket starts failing
+	// once this many calls have been made (0 = not during the calls), and in
+	// the close phase the sockets are closed / failed concurrently with the
+	// Close calls (CloseFault bit 0: listener socket, bit 1: client sockets)
+	FailListenerAt int
+	FailClientAt   int
+	CloseFault     int
 }
 
 type pairCounter struct {
@@ -138,6 +145,8 @@ func c14Call(rng *rand.Rand, s *kcp.UDPSession, m string, buf []byte) {
 	}
 }
 
+var errC14Socket = fmt.Errorf("c14: socket failed")
+
 func c14Run(p c14Prog, pc *pairCounter) (calls int64) {
 	rng := rand.New(rand.NewPCG(p.Seed, 14))
 	key := make([]byte, wire.KeyLen(p.Cipher))
@@ -185,6 +194,8 @@ func c14Run(p c14Prog, pc *pairCounter) (calls int64) {
 					smu.Lock()
 					sessions = append(sessions, c)
 					smu.Unlock()
+				} else {
+					time.Sleep(50 * time.Microsecond) // a failed socket makes Accept return at once
 				}
 			case "L.SetDeadline":
 				L.SetDeadline(time.Now().Add(time.Millisecond))
@@ -220,6 +231,27 @@ func c14Run(p c14Prog, pc *pairCounter) (calls int64) {
 				total.Add(1)
 			}
 		}(g)
+	}
+	// the transport fails under the running calls
+	for _, f := range []struct {
+		at int
+		c  *sim.PConn
+	}{{p.FailListenerAt, lconn}, {p.FailClientAt, conns[0]}} {
+		if f.at <= 0 {
+			continue
+		}
+		wg.Add(1)
+		go func() {
+			defer wg.Done()
+			for total.Load() < int64(f.at) {
+				select {
+				case <-stop:
+					return
+				case <-time.After(200 * time.Microsecond):
+				}
+			}
+			f.c.InjectReadError(errC14Socket)
+		}()
 	}
 	// traffic keeps flowing: a reader drains whatever arrives on every session
 	done := make(chan struct{})
@@ -258,6 +290,16 @@ func c14Run(p c14Prog, pc *pairCounter) (calls int64) {
 	}
 	cw.Add(1)
 	go func() { defer cw.Done(); L.Close() }()
+	if p.CloseFault&1 != 0 {
+		cw.Add(1)
+		go func() { defer cw.Done(); lconn.InjectReadError(errC14Socket) }()
+	}
+	if p.CloseFault&2 != 0 {
+		for _, c := range conns {
+			cw.Add(1)
+			go func(c *sim.PConn) { defer cw.Done(); c.Close() }(c)
+		}
+	}
 	cw.Wait()
 	lconn.Close()
 	for _, c := range conns {
@@ -289,6 +331,13 @@ func TestC14Race(t *testing.T) {
 		if rng.IntN(3) > 0 {
 			p.FEC = [2]int{1 + rng.IntN(5), 1 + rng.IntN(2)}
 		}
+		if rng.IntN(4) == 0 {
+			p.FailListenerAt = 1 + rng.IntN(p.Goroutines*p.Calls)
+		}
+		if rng.IntN(4) == 0 {
+			p.FailClientAt = 1 + rng.IntN(p.Goroutines*p.Calls)
+		}
+		p.CloseFault = rng.IntN(4)
 		pc.mu.Lock()
 		before := pc.hits
 		pc.mu.Unlock()
@@ -298,7 +347,9 @@ func TestC14Race(t *testing.T) {
 		co := pc.hits - before
 		clear(pc.last) // the sessions of a finished program must not stay reachable
 		pc.mu.Unlock()
-		rec.Case(hx.Hash64(p), co > 0, "cipher_"+p.Cipher, fmt.Sprintf("fec_%v", p.FEC[0] > 0))
+		rec.Case(hx.Hash64(p), co > 0, "cipher_"+p.Cipher, fmt.Sprintf("fec_%v", p.FEC[0] > 0),
+			fmt.Sprintf("listener_socket_fails_during_calls_%v", p.FailListenerAt > 0), fmt.Sprintf("client_socket_fails_during_calls_%v", p.FailClientAt > 0),
+			fmt.Sprintf("close_fault_%d", p.CloseFault))
 		if rec.WantSample() {
 			rec.Sample(p)
 		}
